@@ -83,6 +83,9 @@ def build_input(rng, idx):
                 src = src.replace(" -> {}:".format(f.ret_ann), ":", 1)
         if is_class:
             lines += ["class {}(object):".format(nm), '    """', "    The zqsum class {}".format(nm), '    """', ""]
+            if rng.random() < 0.4:
+                # another method precedes __init__ in the class body
+                lines += ["    def zq_describe(self):", "        return 'zq'", ""]
             lines += ["    " + l for l in src.rstrip("\n").split("\n")] + [""]
         else:
             lines += src.rstrip("\n").split("\n") + [""]
